@@ -61,9 +61,11 @@ Definition set_wadded (c : conn) (w : bool) := mk (closed c) (cerr c) (wlist c) 
 Definition add_wire (c : conn) (x : B) := mk (closed c) (cerr c) (wlist c) (left c) (wadded c) (bapp (wire c) x).
 Definition push (c : conn) (it : item) := set_wlist c (wlist c ++ [it]).
 
-(* conn_unix.go newToWriteBuf: count the bytes; new item if the queue is empty, the tail is a file, or the tail
-   buffer would grow beyond maxWriteCacheOrFlushSize; otherwise grow the tail buffer *)
+(* conn_unix.go newToWriteBuf: an empty buffer is ignored; otherwise count the bytes; new item if the queue is
+   empty, the tail is a file, or the tail buffer would grow beyond maxWriteCacheOrFlushSize; otherwise grow the tail
+   buffer *)
 Definition new_buf (c : conn) (b : B) : conn :=
+  if (blen b =? 0)%N then c else
   let c' := set_left c (left c + Z.of_N (blen b)) in
   match rev (wlist c) with
   | Buf d off :: rl =>
@@ -157,7 +159,7 @@ Fixpoint sf_loop (c : conn) (fid : N) (off remain total : Z) (dupfail : bool) (k
   : conn * Z * err * Z :=
   if (remain <=? 0)%Z then (c, total, ENone, off) else
   let eagain :=
-    if dupfail then (c, total, ENone, off)             (* Dup failed: nothing queued, still reports total *)
+    if dupfail then (c, (total - remain)%Z, EDupFail, off)   (* Dup failed: nothing queued, reports what was sent *)
     else (mod_write (push c (File fid off remain)), total, ENone, (off + remain)%Z) in
   match ks with
   | [] => eagain
@@ -178,6 +180,7 @@ Definition op_sendfile (c : conn) (fid : N) (pos : N) (req : Z) (dupfail : bool)
   if closed c then (c, mkres 0 EClosed bnil false) else
   let pos := Z.of_N pos in
   let remain := sf_remain fid pos req in
+  if (remain <=? 0)%Z then (c, mkres 0 ENone bnil false) else   (* position at or beyond the end: nothing to send *)
   match wlist c with
   | _ :: _ =>
       if dupfail then (c, mkres 0 EDupFail bnil false)
@@ -188,7 +191,8 @@ Definition op_sendfile (c : conn) (fid : N) (pos : N) (req : Z) (dupfail : bool)
   end.
 
 (* conn_unix.go flush: head first, one syscall per script element.
-   A queued item with nothing left to send is never removed: the loop does not terminate (rspin). *)
+   A queued item with nothing left to send would never be removed: the loop would not terminate (rspin).
+   C01.v proves that no such item is ever queued. *)
 Fixpoint flush_loop (c : conn) (ks : list kres) : conn * err * bool :=
   match wlist c with
   | [] => (reset_read c, ENone, false)
